@@ -233,7 +233,7 @@ def require_return(ck: Check, rule: str, summ: Summary, spec: Spec, expected: st
     construct = "%s returns %s" % (fi.qualname.replace("skepticoin.", ""), show(want))
     rets = summ.returns()
     uncond = [r for r in rets if not residual(r, ())]
-    if len(rets) == 1 and uncond and rets[0].term == want:
+    if (len(rets) == 1 and uncond and rets[0].term == want) or (rets and same_function(summ, want)):
         ck.ok(rule, construct, what, rets[0].loc)
         return True
     if summ.unknown:
@@ -254,6 +254,13 @@ def require_returns_table(ck: Check, rule: str, summ: Summary, spec: Spec, table
     if sorted(got, key=key) == sorted(rows, key=key):
         ck.ok(rule, construct, what, fi.loc)
         return True
+    # the same function written with other control flow (conditional expression, early returns in another order)
+    spec_val: Optional[Term] = None
+    for c_, v_ in reversed(rows):
+        spec_val = v_ if spec_val is None else ("ife", c_, v_, spec_val)
+    if spec_val is not None and rets and same_function(summ, spec_val):
+        ck.ok(rule, construct, what, fi.loc)
+        return True
     if summ.unknown:
         ck.unknown(rule, construct, "unanalysed constructs: %s" % "; ".join(summ.unknown[:3]), fi.loc)
         return False
@@ -272,3 +279,97 @@ def disj_atoms(t: Term) -> List[Term]:
             else:
                 out.append(d)
     return out
+
+
+# --------------------------------------------------------------------------- decision tables (if/else vs conditional expressions)
+def _first_ife(t: Any) -> Optional[Term]:
+    if isinstance(t, tuple):
+        if t and t[0] == "ife":
+            inner = _first_ife(t[1])
+            return inner if inner is not None else t
+        for x in t:
+            r = _first_ife(x)
+            if r is not None:
+                return r
+    return None
+
+
+def _replace(t: Any, old: Term, new: Term) -> Any:
+    if t == old:
+        return new
+    if isinstance(t, tuple):
+        return tuple(_replace(x, old, new) for x in t)
+    return t
+
+
+def decision_table(t: Term, limit: int = 64) -> Optional[List[Tuple[frozenset, Term]]]:
+    """Expand every conditional inside `t` (lifting it to the top): rows (set of conditions, value without conditionals)."""
+    from .terms import mk_not
+    rows: List[Tuple[frozenset, Term]] = [(frozenset(), t)]
+    out: List[Tuple[frozenset, Term]] = []
+    while rows:
+        conds, v = rows.pop()
+        f = _first_ife(v)
+        if f is None:
+            out.append((conds, v))
+            continue
+        if len(rows) + len(out) > limit:
+            return None
+        c = f[1]
+        for cc, val in ((c, f[2]), (mk_not(c), f[3])):
+            if mk_not(cc) in conds:
+                continue            # contradictory row
+            rows.append((conds | set(conjuncts(cc)), _replace(v, f, val)))
+    # drop contradictory rows, merge rows that differ in the polarity of one condition and agree on the value
+    out = [(c, v) for c, v in out if not any(mk_not(x) in c for x in c)]
+    changed = True
+    while changed:
+        changed = False
+        for i in range(len(out)):
+            for j in range(i + 1, len(out)):
+                (c1, v1), (c2, v2) = out[i], out[j]
+                if v1 != v2:
+                    continue
+                d1, d2 = c1 - c2, c2 - c1
+                if len(d1) == 1 and len(d2) == 1 and mk_not(next(iter(d1))) == next(iter(d2)):
+                    out[i] = (c1 & c2, v1)
+                    del out[j]
+                    changed = True
+                    break
+                if c1 == c2:
+                    del out[j]
+                    changed = True
+                    break
+            if changed:
+                break
+    return sorted(out, key=lambda r: (sorted(key(x) for x in r[0]), key(r[1])))
+
+
+def function_value(summ: Summary) -> Optional[Term]:
+    """all own returns folded into one conditional term, in program order"""
+    from .terms import Norm
+    rets = summ.returns()
+    if not rets:
+        return None
+    val: Optional[Term] = None
+    for r in reversed(rets):
+        cond = mk_and([c.term for c in r.pc if c.prov in ("branch", "handler", "loopcond", "filter")])
+        if val is None:
+            val = r.term
+        elif cond == C(True):
+            val = r.term
+        else:
+            val = ("ife", cond, r.term, val)
+    return val
+
+
+def same_function(summ: Summary, want: Term) -> bool:
+    got = function_value(summ)
+    if got is None:
+        return False
+    if got == want:
+        return True
+    if any(r.loops for r in summ.returns()):
+        return False
+    a, b = decision_table(got), decision_table(want)
+    return a is not None and a == b
